@@ -10,6 +10,7 @@ pub mod util {
     #[verifier::external_body]
     pub struct BigInt { _p: u8 }
     pub type FileServerHandle = usize;
+    broadcast use {crate::symspec::lemma_texts_subrange, crate::symspec::lemma_drop_first_is_subrange, crate::symspec::axiom_key_text_string};
     //@@INCLUDE _shared/symbols_util.rs
     //@@ITEMS util
     }
